@@ -237,7 +237,7 @@ func runC15(c *fw.Ctx) {
 	defer runtime.GOMAXPROCS(runtime.GOMAXPROCS(0))
 	smoke := false
 	// (1) ForEachAsync: exactly once per element with the matching pair, returns after all callbacks returned
-	c.Cases("foreach-async", c.N(400, 14000), false, func(i int, r *rng.R) {
+	c.Cases("foreach-async", c.N(400, 100000), false, func(i int, r *rng.R) {
 		ac := genAsyncCase(c, r)
 		onList := r.Chance(3, 5)
 		c15ForEach(c, r, ac, onList)
@@ -261,15 +261,15 @@ func runC15(c *fw.Ctx) {
 		})
 	}
 	// (2) MapAsync == Map for pure functions (incl. functions that map nested containers asynchronously themselves)
-	c.Cases("map-async", c.N(200, 6000), false, func(i int, r *rng.R) {
+	c.Cases("map-async", c.N(200, 40000), false, func(i int, r *rng.R) {
 		ac := genAsyncCase(c, r)
 		c15Map(c, r, ac, r.Chance(3, 5))
 	})
-	c.Cases("map-async-nested", c.N(40, 1000), false, func(i int, r *rng.R) {
+	c.Cases("map-async-nested", c.N(40, 5000), false, func(i int, r *rng.R) {
 		c15MapNested(c, r)
 	})
 	// (3) concurrent read-only operations on one shared container
-	c.Cases("readers", c.N(100, 3000), false, func(i int, r *rng.R) {
+	c.Cases("readers", c.N(100, 20000), false, func(i int, r *rng.R) {
 		c15Readers(c, r)
 	})
 	_ = smoke
